@@ -18,3 +18,10 @@ Qed.
 Example C34_nonvacuous_inconsistent :
   assum_of (Some [EF2 TC_StrictLessThan (ENum (NInt 0)) sx; EF2 TC_StrictLessThan sx (ENum (NInt 0))]) = ErrExn EXN_SYMENGINE.
 Proof. vm_compute. reflexivity. Qed.
+(* the former counterexamples of the repaired rules now get sound answers *)
+Example C34_repaired_rules :
+  is_nonnegative None (ENum NNaN) = QT TF /\ is_nonpositive None (ENum NNaN) = QT TF /\
+  is_nonnegative None (ENum (NInf 0)) = QT TF /\ is_nonpositive None (ENum (NInf 0)) = QT TF /\
+  (exists A, assum_of st_pos_x = Ok A /\ is_positive A e_pos_cplx = QT TI) /\
+  (exists A, assum_of st_real_x = Ok A /\ is_real A e_add_two_nonreal = QT TI).
+Proof. exact repaired_rules. Qed.
